@@ -6,6 +6,8 @@ BMC = "bounded model checking of the real Rust source (Kani/CBMC symbolic execut
 CLAIMS = {
  'C01': ("Solver verdicts over the real NewOrder::new (count, order, type and value of every identifier, 1 and 3 symbolic identifiers) and the real Csr::new against an OpenSSL model that records what the builders were given: CSR key == signing key == given key, digest as configured (none for EdDSA), SAN entries exactly the given names in order, subject attribute kept.",
          "OpenSSL builders are records (DER/self-signature/SAN encoding trusted); IDNA and IP canonicalisation, JSON serialisation and the CSR-key/key-file link of the flow are outside (see evidence).", "5 C01"),
+ 'C02': ("Narrow: on a verbatim source slice of storage::write_file (the open / write / chown statements) the solver shows, for every previous file state (absent or 0..3 arbitrary bytes), every new content of 0..3 bytes and each of the three file types, that exactly one open for writing happens and the file afterwards holds exactly the new bytes - no residue of older, longer content.",
+         "Only the every-write-leaves-exactly-the-new-content half of C02; the identity 'bytes written == PEM chain returned by the CA / key of the CSR' needs request_certificate (did not converge) and is outside. File system = POSIX-like single-file model with a plain error type; slice de-sugared to one task; contents > 3 bytes outside (no length-dependent code on the path).", "5 C02"),
  'C04': ("Solver verdicts on the key/algorithm binding of every JWS signature (7x9 table, sign() dispatch: one signature by the given key over the whole input with the right digest), on the fixed-width R||S encoding for ECDSA components of every minimal length (P-256/384/521) and on nonce hygiene of http::get (a nonce is stored only if the server issued a well-formed one).",
          "Narrow claim: the JWS envelope (protected header, payload encoding) and nonce freshness across POST retries are outside (serde_json/base64 did not converge; CBMC 6.11 crashes on http::post). OpenSSL model and reqwest model are listed in the evidence.", "4 C04"),
  'C05': ("For a name and its wildcard configured with any of the 3x3 challenge assignments in either order, and for each single form, the solver shows the real lookup picks the entry matching the authorization's wildcard flag; unknown names are rejected.",
@@ -17,7 +19,7 @@ CLAIMS = {
  'C09': ("Inductive single step of the real RateLimit::block_until_allowed from an arbitrary log: window count and no-forgetting invariants hold for every log content, period 1..20 s and clock reading (n<=3, <=2 limits); with the induction argument in DESIGN.md this bounds every window of every history. Liveness: a permitted request returns after one sleep.",
          "Whole-second clock; sleep/Instant::now replaced by over-approximating models; n<=3, periods<=20 s, <=2 limits; http.rs call sites covered only as far as DESIGN.md C09 says.", "5 C09"),
  'C13': ("For every u32 mode and every presence pattern the solver shows the mode/owner getters return the configured value, else 0600 (keys, accounts) / 0644 (certificates) / none.",
-         "Only the configuration getters; the open()/chown path of storage::write_file is covered as far as DESIGN.md C13 says.", "5 C13"),
+         "The configuration getters, storage::set_owner on the nix model and (source slice of write_file, shared with C02) the mode given to open() per file type; umask and the FileManager literals of MainEventLoop::new are outside.", "5 C13"),
  'C14': ("For each of the 14 Option-typed [global] options and every presence pattern in including/included file the solver shows the later file wins on a verbatim slice of read_cnf; sections are concatenated; renew_delay / random_early_renew / file_name_format / directory take the most specific level for every presence pattern; unresolved endpoint / rate-limit references are rejected.",
          "Source slice of read_cnf (inline merge code), parse_duration replaced by a tag model in this unit, glob/include-graph/file I/O and the [global] env table outside (see evidence 'outside_bounds').", "5 C14"),
  'C15': ("Solver verdicts over the real key code against an OpenSSL model whose big numbers have symbolic length: the 7x9 key/algorithm table is exactly the 7 legal pairs; sign() dispatches to the right primitive/digest and signs once with the given key; ECDSA JWS signatures have exactly 2*size bytes for r, s of ANY minimal length (P-256/384/521); the padding macro right-aligns and zero-pads for every size <= 5 and length.",
@@ -28,7 +30,6 @@ CLAIMS = {
          "TOML/serde layer, include cycles and file I/O are outside (not_applicable parts listed in DESIGN.md C19). fmt::format stubbed where message text is irrelevant.", "5 C19"),
 }
 NA = {
- 'C02': "storage::write_file on the POSIX file model is encoded (harness/storage.rs) but CBMC aborts after ~400 s of symbolic execution: no solver verdict, so no claim (DESIGN.md 4, C02)",
  'C03': "request_certificate as a whole did not reach a solver verdict within reach of Kani/CBMC (async state machine + heap): no sound check, see DESIGN.md section 4",
  'C07': "renew_certificate with cuts is encoded (harness/main_event_loop.rs) but every run ended in solver out-of-memory or timeout (Arc<RwLock<Account>> drop glue, hashbrown): no verdict, no claim",
  'C10': "hooks::call/call_single on the async-process model and Config::get_hook are encoded (harness/hooks.rs, harness/config.rs) but all runs ended in timeout or solver out-of-memory (HashSet<HookType> membership, Hook clones): no verdict, no claim",
